@@ -516,6 +516,18 @@ def run(ctx):
     only = os.environ.get("C12_ONLY", "")
     accepted = 0
     alltr = []
+    if ctx.replay:
+        # re-drive the recorded scenario on the real code and validate the new trace (without waiver)
+        rp = json.load(open(ctx.replay))["replay"]["scenario"]
+        layer, scn = rp["layer"], rp["scenario"]
+        mode = {1: "l1", 2: "l2", "up": "up"}[layer]
+        t = drive(ctx, mode, [scn], "replay", par=1)[0]
+        tr = {"id": t["id"], "events": t["events"], "header": t["header"], "scenario": rp, "meta": t["meta"]}
+        acc, rej = validate_all(ctx, [tr], "replay")
+        for r in rej:
+            report(ctx, r)
+        return "model_checking", {"replayed": scn.get("id"), "traces_validated_against_impl": acc,
+                                  "rejected": [classify(r["trace"], r) for r in rej]}, []
     if only in ("", "mc"):
         model_check(ctx, cov)
     if only in ("", "l1"):
